@@ -218,6 +218,46 @@ def family_order(tier, seed, n=None):
         ops = [{"op": "construct", "o": "o1"},
                {"op": "explore", "call": mcall(), "paths": paths, "uniform": ["o1.f%d" % free], "max_paths": 40000}]
         out.append({"id": "O20/widestage/%d" % t, "world": world, "ops": ops, "tags": []})
+    # (f) an ordering stage that mixes a random field with one that is NOT random in the call (a plain attribute, or rand_mode
+    #     off): the random one is still decided in its stage, uniformly over its feasible values
+    for t in range(2 if tier == "quick" else 6):
+        rnd = random.Random(2060 + t)
+        nonrand = t % 2 == 0
+        fields = [fld("a", 2, False), fld("k", 1, False, rand=not nonrand, init=t % 2), fld("b", 1, False)]
+        body = [E(B("le", F("b"), B("and", F("a"), B("add", F("k"), lit(1))))) if t % 3 != 2 else
+                {"k": "imp", "c": B("eq", F("a"), lit(0)), "body": [E(B("eq", F("b"), F("k")))]},
+                {"k": "order", "a": ["a", "k"] if t % 4 < 2 else ["k", "a"], "b": ["b"]}]
+        world = one(fields, [blk("c1", body)])
+        ops = [{"op": "construct", "o": "o1"}]
+        paths = ["o1.a", "o1.b"]
+        if not nonrand:
+            ops.append({"op": "rand_mode", "p": "o1.k", "b": False})
+        ops += [{"op": "explore", "call": mcall(), "paths": paths, "uniform": ["o1.a"], "max_paths": mp},
+                {"op": "set", "p": "o1.k", "v": bits(1 - t % 2, 1)},
+                {"op": "explore", "call": mcall(), "paths": paths, "uniform": ["o1.a"], "max_paths": mp}]
+        if not nonrand:
+            # ... and with the field random again the stage decides both
+            ops += [{"op": "rand_mode", "p": "o1.k", "b": True},
+                    {"op": "explore", "call": mcall(), "paths": ["o1.a", "o1.k", "o1.b"], "uniform": [], "max_paths": mp}]
+        out.append({"id": "O20/mixedstage/%d" % t, "world": world, "ops": ops, "tags": []})
+    # (g) a LIST named first in solve_order: every element is decided before the later variable - on the first call, on later
+    #     calls, and after the user rebuilt the list with the same number of (new) elements
+    for t in range(2 if tier == "quick" else 6):
+        rnd = random.Random(2070 + t)
+        nel = 2 if t % 2 == 0 else 3
+        fields = [{"name": "l", "kind": "list", "w": 1, "signed": False, "rand": True, "init": [0] * nel, "randsz": False, "cap": 4},
+                  fld("x", 2, False)]
+        body = [{"k": "foreach", "l": "l", "v": "i", "it": True, "idx": False,
+                 "body": [{"k": "imp", "c": B("eq", {"k": "it", "v": "i", "p": ""}, lit(1)), "body": [E(B("eq", F("x"), lit(t % 4)))]}]},
+                {"k": "order", "a": ["l"], "b": ["x"]}]
+        world = one(fields, [blk("c1", body)])
+        elems = ["o1.l[%d]" % i for i in range(nel)]
+        ex = {"op": "explore", "call": mcall(), "paths": elems + ["o1.x"], "uniform": elems, "max_paths": mp}
+        ops = [{"op": "construct", "o": "o1"}, dict(ex), {"op": "call", "call": mcall()}, dict(ex),
+               {"op": "list", "kind": "l_clear", "p": "o1.l"}, {"op": "list", "kind": "l_extend", "p": "o1.l", "vs": [bits(0, 1)] * nel},
+               dict(ex), {"op": "call", "call": mcall()},
+               {"op": "list", "kind": "l_assign", "p": "o1.l", "vs": [bits(1, 1)] * nel}, dict(ex)]
+        out.append({"id": "O20/listfirst/%d" % t, "world": world, "ops": ops, "tags": []})
     # program pairs that agree on Feasible(a) and differ only in how many b accompany each a
     for t in range(2 if tier == "quick" else 8):
         rnd = random.Random(2021 + t)
